@@ -152,6 +152,15 @@ Fixpoint data_rows_from (n : nat) (l : list Energy) : list row :=
   match l with [] => [] | e :: l => pre (nat_str n) (energy_rows e) ++ data_rows_from (S n) l end.
 Definition dump_data (l : list Energy) : list row := data_rows_from 0 l.
 
+(** factors as rows: i/cr, i/src, i/dest, i/step (indexes), i/v/0..2 *)
+Definition factor_rows (f : Factor) : list row :=
+  [("cr", qz (idx_of Carrier_beq all_carriers (f_cr f))); ("src", qz (idx_of Source_beq all_sources (f_src f)));
+   ("dest", qz (idx_of Dest_beq all_dests (f_dest f))); ("step", qz (idx_of Step_beq all_steps (f_step f)))]
+  ++ rn "v" (f_val f).
+Fixpoint factors_rows_from (n : nat) (l : list Factor) : list row :=
+  match l with [] => [] | f :: l => pre (nat_str n) (factor_rows f) ++ factors_rows_from (S n) l end.
+Definition dump_factors (l : list Factor) : list row := factors_rows_from 0 l.
+
 (** input helpers used by generated case files *)
 Definition Q (n : Z) (d : positive) : Qc := qfrac n d.
 Definition QL (l : list (Z * positive)) : list Qc := map (fun p => qfrac (fst p) (snd p)) l.
